@@ -7,6 +7,7 @@
   Mathlib-free (linked into btcmodel).
 -/
 import BtcVerif.Spec.ScriptEnv
+import BtcVerif.Spec.Sighash
 
 namespace BtcVerif.Spec.Templates
 open BtcVerif BtcVerif.Spec.Script
@@ -67,5 +68,12 @@ def greedy (chk : Bytes → Bytes → Bool) : List Bytes → List Bytes → Bool
   | [], _ => true
   | _ :: _, [] => false
   | s :: ss, k :: ks => if chk s k then greedy chk ss ks else greedy chk (s :: ss) ks
+
+/-- the environment of input `i` of the spending transaction `tx`: a signature is checked by
+    `ecdsa body key digest` (any function — the ECDSA verifier is not unfolded by any theorem) against
+    the legacy signature hash of `tx` for the script code and hash type handed over by the interpreter -/
+def txEnv (hashes : Hashes) (ecdsa : Bytes → Bytes → Bytes → Bool) (tx : Tx) (i : Nat) : Env :=
+  { hashes := hashes
+    sigCheck := fun body key scriptCode ht => ecdsa body key (Spec.Sighash.legacySighash scriptCode tx i ht).1 }
 
 end BtcVerif.Spec.Templates
